@@ -31,8 +31,11 @@ import (
 	"time"
 
 	ecommon "github.com/ChainSafe/sygma-relayer/tss/ecdsa/common"
+	ekeygen "github.com/ChainSafe/sygma-relayer/tss/ecdsa/keygen"
 	eresharing "github.com/ChainSafe/sygma-relayer/tss/ecdsa/resharing"
 	esigning "github.com/ChainSafe/sygma-relayer/tss/ecdsa/signing"
+	fkeygen "github.com/ChainSafe/sygma-relayer/tss/frost/keygen"
+	fresharing "github.com/ChainSafe/sygma-relayer/tss/frost/resharing"
 	fsigning "github.com/ChainSafe/sygma-relayer/tss/frost/signing"
 	tssutil "github.com/ChainSafe/sygma-relayer/tss/util"
 	tsscommon "github.com/binance-chain/tss-lib/common"
@@ -56,6 +59,12 @@ type Reshare struct {
 	// parameters, then Stop); committee and threshold stay what they were
 	Abandon string `json:"abandon,omitempty"`
 	Op      string `json:"op,omitempty"`
+	// Via = coord (coord.go): every relayer of the new committee runs the real tss.Coordinator around its
+	// resharing process under the session id Sid - who coordinates is decided by the processes'
+	// ValidCoordinators and the session id (chosen by the generator so that a given relayer, a joining one
+	// included, sorts first among the new committee)
+	Via string `json:"via,omitempty"`
+	Sid string `json:"sid,omitempty"`
 }
 
 // Mode: how one signing session hands its result over / whether its first attempt fails (session.go)
@@ -84,7 +93,11 @@ type Resub struct {
 }
 
 type Case struct {
-	Kind string `json:"kind"` // release | parties | sortp | validate | scenario | btcwatch
+	Kind string `json:"kind"` // release | parties | sortp | validate | coords | scenario | btcwatch | btcexec
+	// coords: whom a process in a given state names as candidates for the session's coordinator
+	// (ValidCoordinators): Proc = ecdsa-/frost- keygen | signing | resharing; Peers = the host's
+	// peerstore, KeyPeers = the committee its stored key share lists (empty: no share)
+	Proc string `json:"proc,omitempty"`
 	// btcwatch (btc.go): Inputs = transaction inputs, Results = what arrives on the executor's
 	// signature channel, in order: -1 a nil value, id >= 0 the signature of input id's process
 	Results []int `json:"results,omitempty"`
@@ -125,6 +138,19 @@ type Case struct {
 	Offline bool `json:"offline,omitempty"`
 	// Resubs: sessions whose abandoned first attempt ran with another subset (resub.go)
 	Resubs []Resub `json:"resubs,omitempty"`
+	// CSigns: signing sessions through the real tss.Coordinator on every relayer of a committee larger than
+	// threshold+1 in which a selected relayer dies when the first attempt begins (coord.go)
+	CSigns []CSign `json:"csigns,omitempty"`
+	// OldOnly: after a refresh with joining relayers only the members that held a share before are
+	// observed - their shares, their signing sessions - plus the public key every member stores (FROST:
+	// what a joiner's share is worth is the open finding C08-frost-refresh-join)
+	OldOnly bool `json:"old_only,omitempty"`
+	// ExFirst: the session id of the scenario's (Via coord) refresh was chosen so that a relayer that
+	// LEAVES the committee in it sorts first among the old committee
+	ExFirst bool `json:"ex_first,omitempty"`
+	// btcexec: the values of the bridge's UTXOs, in the order in which the mempool serves them (empty: five
+	// of 10000)
+	Values []uint64 `json:"values,omitempty"`
 	// btcexec: the committee's FROST shares are refreshed (same committee and threshold) before the
 	// executor runs; the transfer must then be signed and broadcast ("the new committee can sign")
 	Refresh bool `json:"refresh,omitempty"`
@@ -174,6 +200,8 @@ type Obs struct {
 	SPKind  int        `json:"sp_kind,omitempty"` // 0 list, 1 nil entries, 2 panic
 	// validate
 	VCode int `json:"vcode,omitempty"`
+	// coords
+	Cands []string `json:"cands,omitempty"`
 	// scenario
 	Stages []Stage `json:"stages,omitempty"`
 	// btcwatch: transactions that reached the node; per input: its witness verifies in all of them
@@ -262,6 +290,36 @@ func runValidate(c Case) Obs {
 	return Obs{VCode: 9}
 }
 
+var coordProcs = []string{"ecdsa-keygen", "frost-keygen", "ecdsa-signing", "frost-signing", "ecdsa-resharing", "frost-resharing"}
+
+func runCoords(c Case) Obs {
+	store := decodePeers(c.Peers)
+	self := synthPeer("coords-self")
+	if len(store) > 0 {
+		self = store[0]
+	}
+	h := c08fakes.NewHost(self, store)
+	kp := decodePeers(c.KeyPeers)
+	var out []peer.ID
+	switch c.Proc {
+	case "ecdsa-keygen":
+		out = ekeygen.NewKeygen("c08-coords", 1, h, c08fakes.NewHub(1).Join(self), c08fakes.NewECDSAStore(filepath.Join(os.TempDir(), "c08-coords-none.keyshare"))).ValidCoordinators()
+	case "frost-keygen":
+		out = fkeygen.NewKeygen("c08-coords", 1, h, c08fakes.NewHub(1).Join(self), c08fakes.NewFrostStore(filepath.Join(os.TempDir(), "c08-coords-none-frost.keyshare"))).ValidCoordinators()
+	case "ecdsa-signing":
+		out = esigning.VerifValidCoordinators(h, kp)
+	case "frost-signing":
+		out = fsigning.VerifValidCoordinators(h, kp)
+	case "ecdsa-resharing":
+		out = eresharing.VerifValidCoordinators(h, kp)
+	case "frost-resharing":
+		out = fresharing.VerifValidCoordinators(h, kp)
+	default:
+		panic("unknown proc " + c.Proc)
+	}
+	return Obs{Cands: strs(out)}
+}
+
 // ---- scenarios -------------------------------------------------------------------------------------
 
 var qOrder = btcec.S256().N
@@ -333,12 +391,13 @@ func digestFor(seed uint64, stage int, subset []int) []byte {
 }
 
 // sharesStage reads the key-share files of the committee back and builds the shares observation.
-func sharesStage(w *world, proto string, u []peer.ID, members []int, t int, oldPts []Share) (Stage, []byte) {
+// pubOnly: members of which only the stored public key and threshold are compared (OldOnly scenarios).
+func sharesStage(w *world, proto string, u []peer.ID, members []int, t int, oldPts []Share, pubOnly ...int) (Stage, []byte) {
 	st := Stage{IsShares: true, T: t, OldPts: oldPts}
 	var ids, ys []*big.Int
 	var pub []byte
 	same := true
-	for _, m := range members {
+	for k, m := range append(append([]int(nil), members...), pubOnly...) {
 		p := u[m]
 		var id, y *big.Int
 		var pk []byte
@@ -384,6 +443,9 @@ func sharesStage(w *world, proto string, u []peer.ID, members []int, t int, oldP
 		} else if string(pub) != string(pk) {
 			same = false
 			st.Note += "holders store different public keys; "
+		}
+		if k >= len(members) {
+			continue
 		}
 		ids = append(ids, new(big.Int).Mod(id, qOrder))
 		ys = append(ys, y)
@@ -704,14 +766,25 @@ func runScenario(c Case) Obs {
 		signAt[s] = true
 	}
 	var prevPts []Share
-	var ex []int // relayers that left the committee (they keep their old share files)
+	var ex []int     // relayers that left the committee (they keep their old share files)
+	var joined []int // OldOnly: members that joined in a refresh (their shares are not observed)
 	abandoned := false
 	for stage := 0; ; stage++ {
 		var oldPts []Share
 		if stage > 0 && c.Proto == "frost" && !abandoned {
 			oldPts = prevPts
 		}
-		st, pub := sharesStage(w, c.Proto, u, committee, t, oldPts)
+		whole := committee
+		if c.OldOnly && len(joined) > 0 {
+			var obs []int
+			for _, m := range whole {
+				if !containsInt(joined, m) {
+					obs = append(obs, m)
+				}
+			}
+			committee = obs
+		}
+		st, pub := sharesStage(w, c.Proto, u, committee, t, oldPts, joined...)
 		o.Stages = append(o.Stages, st)
 		prevPts = st.Pts
 		// sessions whose abandoned first attempt ran with another subset (resub.go); they run while the
@@ -722,8 +795,23 @@ func runScenario(c Case) Obs {
 				rsubs = append(rsubs, rs)
 			}
 		}
+		// sessions through the real Coordinators in which a selected relayer dies (coord.go); likewise
+		var csigns []CSign
+		for _, cs := range c.CSigns {
+			if cs.Stage == stage {
+				csigns = append(csigns, cs)
+			}
+		}
+		cres := make([]Stage, len(csigns))
 		rres := make([]Stage, len(rsubs))
 		var rwg sync.WaitGroup
+		for k, cs := range csigns {
+			rwg.Add(1)
+			go func(k int, cs CSign, committee []int) {
+				defer rwg.Done()
+				cres[k] = csignStage(w, c, u, committee, t, cs, k, stage > 0, pub)
+			}(k, cs, append([]int(nil), committee...))
+		}
 		for k, rs := range rsubs {
 			rwg.Add(1)
 			go func(k int, rs Resub, committee []int) {
@@ -764,10 +852,11 @@ func runScenario(c Case) Obs {
 				o.Stages = append(o.Stages, res...)
 			}
 		}
-		if len(rsubs) > 0 {
+		if len(rsubs)+len(csigns) > 0 {
 			rwg.Wait()
-			o.Stages = append(o.Stages, rres...)
+			o.Stages = append(append(o.Stages, rres...), cres...)
 		}
+		committee = whole
 		if stage >= len(c.Reshares) {
 			break
 		}
@@ -787,9 +876,20 @@ func runScenario(c Case) Obs {
 		if c.Overlap && signAt[stage+1] {
 			planOverlap(w, c, u, committee, rs.Members, rs.T, stage, pub)
 		}
-		if c.Proto == "ecdsa" {
+		who := ""
+		switch {
+		case rs.Via == "coord":
+			if rs.Sid != "" {
+				sid = rs.Sid
+			}
+			var by int
+			r, by = w.coordReshare(c.Proto, sid, pick(u, rs.Members), rs.T)
+			if by >= 0 {
+				who = fmt.Sprintf(" (coordinated by relayer %d)", rs.Members[by])
+			}
+		case c.Proto == "ecdsa":
 			r, err = w.ecdsaReshare(sid, pick(u, rs.Members), rs.T)
-		} else {
+		default:
 			r, err = w.frostReshare(sid, pick(u, rs.Members), rs.T)
 		}
 		if err != nil {
@@ -797,7 +897,15 @@ func runScenario(c Case) Obs {
 		}
 		w.ov = nil
 		if r.TimedOut || firstErr(r.Errs) != "" {
-			return fail(true, "reshare: "+firstErr(r.Errs))
+			if r.TimedOut && firstErr(r.Errs) == "" {
+				return fail(true, "reshare: timed out"+who)
+			}
+			return fail(true, "reshare: "+firstErr(r.Errs)+who)
+		}
+		for _, m := range rs.Members {
+			if c.OldOnly && !containsInt(committee, m) && !containsInt(joined, m) {
+				joined = append(joined, m)
+			}
 		}
 		for _, m := range committee {
 			in := false
@@ -823,6 +931,15 @@ func runScenario(c Case) Obs {
 		ex = still
 	}
 	return o
+}
+
+func containsInt(l []int, x int) bool {
+	for _, y := range l {
+		if y == x {
+			return true
+		}
+	}
+	return false
 }
 
 // leaverSid: a session id (the given one with a suffix) for which at least one ex-member sorts among
@@ -853,7 +970,7 @@ type future struct {
 var (
 	futMu   sync.Mutex
 	futures = map[string]*future{}
-	cpuSem  = make(chan struct{}, 3) // CPU-heavy ECDSA scenarios at a time
+	cpuSem  = make(chan struct{}, 4) // CPU-heavy ECDSA scenarios at a time
 )
 
 func caseKey(c Case) string { b, _ := json.Marshal(c); return string(b) }
@@ -899,6 +1016,8 @@ func run(c Case) Obs {
 		return runSortP(c)
 	case "validate":
 		return runValidate(c)
+	case "coords":
+		return runCoords(c)
 	case "scenario", "btcexec":
 		return futureOf(c).get(c)
 	case "btcwatch":
@@ -1021,6 +1140,34 @@ func gen(r *vgen.Rng, tier string) []Case {
 		oldT := r.Range(-1, len(sub)+1)
 		out = append(out, Case{Kind: "validate", Peers: strs(store), KeyPeers: strs(keyPeers), Old: strs(sub), OldT: oldT})
 	}
+	// whom a process names as candidates for the coordinator: every process kind on peerstores of 1-6
+	// relayers; the stored key share lists a part of them, all of them, nobody (a joining relayer) and - a
+	// refresh in which somebody leaves - relayers that are not in the peerstore any more
+	for _, proc := range coordProcs {
+		// the fixture committee {0,1,2}: relayer 1 leaves and relayer 3 joins; a relayer that holds no share
+		out = append(out, Case{Kind: "coords", Proc: proc, Peers: strs([]peer.ID{fp[0], fp[2], fp[3]}), KeyPeers: strs(fp[:3])},
+			Case{Kind: "coords", Proc: proc, Peers: strs(fp), KeyPeers: nil})
+	}
+	for i := 0; i < 2*nGlue/3; i++ {
+		n := r.Range(1, 6)
+		store := make([]peer.ID, n)
+		for j := range store {
+			store[j] = randPeer(r)
+		}
+		var keyPeers []peer.ID
+		if !r.Chance(1, 5) {
+			for _, p := range store {
+				if r.Chance(3, 4) {
+					keyPeers = append(keyPeers, p)
+				}
+			}
+			for k := r.Intn(3); k > 0 && r.Chance(1, 2); k-- {
+				keyPeers = append(keyPeers, randPeer(r)) // left the committee
+			}
+		}
+		r.Shuffle(len(keyPeers), func(a, b int) { keyPeers[a], keyPeers[b] = keyPeers[b], keyPeers[a] })
+		out = append(out, Case{Kind: "coords", Proc: coordProcs[i%len(coordProcs)], Peers: strs(store), KeyPeers: strs(keyPeers)})
+	}
 	out = append(out, genBtcWatch(r, tier)...)
 	seed := r.U64() % 1000
 	u5 := universe(5)
@@ -1075,10 +1222,97 @@ func gen(r *vgen.Rng, tier string) []Case {
 	// the complete BTC executor on three relayers: a transfer that needs two of the bridge's UTXOs
 	// (Refresh: after a refresh of the committee's FROST shares - then the transfer MUST be signed and
 	// broadcast: every input's signing session, run under the session id the executor gives it)
-	scn = append(scn, Case{Kind: "btcexec", Inputs: 2, Seed: seed}, Case{Kind: "btcexec", Inputs: 2, Seed: seed + 4, Refresh: true})
+	// The bridge's UTXOs have DIFFERENT values (pairwise distinct, in no particular order): the digest every
+	// input's FROST session signs commits to the amounts of all spent outputs, and every witness of the
+	// broadcast transaction is verified against the outputs as the chain has them.  Transfers that need 2,
+	// 3 (after a refresh) and 4 inputs; one control with equal values.
+	utxoValues := func() []uint64 {
+		var vs []uint64
+		for len(vs) < 5 {
+			v := 6000 + uint64(r.Intn(24000))
+			dup := false
+			for _, x := range vs {
+				dup = dup || x == v
+			}
+			if !dup {
+				vs = append(vs, v)
+			}
+		}
+		return vs
+	}
+	// (one UTXO worth more than 2^32 satoshi, one more than 2^31)
+	bigValues := utxoValues()
+	bigValues[int(seed%2)] += 1 << 32
+	bigValues[2+int(seed%2)] += 1 << 31
+	scn = append(scn, Case{Kind: "btcexec", Inputs: 2, Seed: seed, Values: utxoValues()}, Case{Kind: "btcexec", Inputs: 3, Seed: seed + 4, Refresh: true, Values: utxoValues()},
+		Case{Kind: "btcexec", Inputs: 4, Seed: seed + 7, Values: bigValues}, Case{Kind: "btcexec", Inputs: 2, Seed: seed + 8})
+	// Sessions through the REAL tss.Coordinator on every relayer (coord.go, cnet.go).
+	// (a) refreshes with a JOINING relayer under a session id for which the joiner sorts first among the new
+	//     committee (who may coordinate a refresh is decided by the processes' ValidCoordinators + the session
+	//     id): the refresh must complete, the key stay, the new committee sign.  FROST: what the joiner's
+	//     share is worth is the open finding - the members that held a share before are observed (OldOnly).
+	// (b) after a refresh through the Coordinators (ECDSA also: after abandoned refreshes), signing sessions
+	//     of a committee LARGER than threshold+1 in which a selected relayer - the coordinator or another
+	//     one - dies when the first attempt begins: the retry needs the relayers that were not selected.
+	cj := []int{0, 1, 2, 3}
+	c3 := []int{0, 1, 2}
+	// rsid: a session id for which relayer `first` sorts first among `among`
+	rsid := func(tag string, among []int, first int) string {
+		return sidFirst(fmt.Sprintf("resharing-%s-%d", tag, seed), pick(u5, among), u5[first])
+	}
+	scn = append(scn,
+		Case{Kind: "scenario", Proto: "ecdsa", Start: "fixtures", Reshares: []Reshare{{Members: cj, T: 1, Via: "coord", Sid: rsid("ej", cj, 3)}}, SignAt: []int{1}, Seed: seed + 40, MaxSubsets: 3,
+			CSigns: csignsFor(u5, cj, 1, 1, 1, seed)},
+		Case{Kind: "scenario", Proto: "frost", Start: "fixtures", Reshares: []Reshare{{Members: cj, T: 1, Via: "coord", Sid: rsid("fj", cj, 3)}}, SignAt: []int{1}, Seed: seed + 40, OldOnly: true},
+		Case{Kind: "scenario", Proto: "frost", Start: "fixtures", Reshares: []Reshare{{Members: c3, T: 1, Via: "coord", Sid: rsid("fs", c3, int(seed%3))}}, Seed: seed + 41,
+			CSigns: csignsFor(u5, c3, 1, 1, 2, seed)},
+		Case{Kind: "scenario", Proto: "ecdsa", Start: "fixtures", Reshares: []Reshare{{Members: []int{0, 1, 2, 3}, T: 2, Abandon: "stop"}, {Members: c3, T: 1, Via: "coord", Sid: rsid("es", c3, int((seed+1)%3))}}, Seed: seed + 41,
+			CSigns: csignsFor(u5, c3, 1, 2, 2, seed+1)},
+	)
 	if tier == "thorough" {
-		scn = append(scn, Case{Kind: "btcexec", Inputs: 1, Seed: seed + 1}, Case{Kind: "btcexec", Inputs: 3, Seed: seed + 2}, Case{Kind: "btcexec", Inputs: 2, Seed: seed + 3},
-			Case{Kind: "btcexec", Inputs: 3, Seed: seed + 5, Refresh: true}, Case{Kind: "btcexec", Inputs: 1, Seed: seed + 6, Refresh: true})
+		scn = append(scn, Case{Kind: "btcexec", Inputs: 1, Seed: seed + 1, Values: utxoValues()}, Case{Kind: "btcexec", Inputs: 3, Seed: seed + 2, Values: utxoValues()}, Case{Kind: "btcexec", Inputs: 2, Seed: seed + 3},
+			Case{Kind: "btcexec", Inputs: 4, Seed: seed + 5, Refresh: true, Values: utxoValues()}, Case{Kind: "btcexec", Inputs: 1, Seed: seed + 6, Refresh: true},
+			// only the last / only the first UTXO of the transaction differs; ascending; descending
+			Case{Kind: "btcexec", Inputs: 3, Seed: seed + 9, Values: []uint64{9000, 9000, 9001, 9000, 9000}},
+			Case{Kind: "btcexec", Inputs: 3, Seed: seed + 10, Values: []uint64{20000, 9000, 9000, 9000, 9000}},
+			Case{Kind: "btcexec", Inputs: 4, Seed: seed + 11, Refresh: true, Values: []uint64{7000, 8000, 9000, 10000, 11000}},
+			Case{Kind: "btcexec", Inputs: 2, Seed: seed + 12, Refresh: true, Values: []uint64{30000, 6500, 9000, 9000, 9000}})
+		// every relayer of the new committee in turn sorts first for the refresh's session id
+		for first := 0; first < 4; first++ {
+			scn = append(scn,
+				Case{Kind: "scenario", Proto: "ecdsa", Start: "fixtures", Reshares: []Reshare{{Members: cj, T: 1, Via: "coord", Sid: rsid(fmt.Sprintf("tej%d", first), cj, first)}}, SignAt: []int{1}, Seed: seed + 42 + uint64(first), MaxSubsets: 3},
+				Case{Kind: "scenario", Proto: "frost", Start: "fixtures", Reshares: []Reshare{{Members: cj, T: 1, Via: "coord", Sid: rsid(fmt.Sprintf("tfj%d", first), cj, first)}}, SignAt: []int{1}, Seed: seed + 42 + uint64(first), OldOnly: true})
+		}
+		c4 := []int{0, 1, 3, 4}
+		c5 := []int{0, 1, 2, 3, 4}
+		scn = append(scn,
+			// the full FROST join through the Coordinators (the open finding's class)
+			Case{Kind: "scenario", Proto: "frost", Start: "fixtures", Reshares: []Reshare{{Members: cj, T: 1, Via: "coord", Sid: rsid("tfjf", cj, 3)}}, SignAt: []int{1}, Seed: seed + 46},
+			// join + leave + threshold up, a joiner sorting first; threshold 2: two selected relayers survive the
+			// dead one and hold the re-election together; committees of threshold+2 and threshold+3
+			Case{Kind: "scenario", Proto: "ecdsa", Start: "fixtures", Reshares: []Reshare{{Members: c4, T: 2, Via: "coord", Sid: rsid("te4a", c4, 3)}}, SignAt: []int{1}, Seed: seed + 47, MaxSubsets: 2,
+				CSigns: csignsFor(u5, c4, 2, 1, 3, seed)},
+			Case{Kind: "scenario", Proto: "ecdsa", Start: "fixtures", Reshares: []Reshare{{Members: c4, T: 2, Via: "coord", Sid: rsid("te4b", c4, 4)}}, SignAt: []int{1}, Seed: seed + 48, MaxSubsets: 2},
+			Case{Kind: "scenario", Proto: "ecdsa", Start: "fixtures", Reshares: []Reshare{{Members: c5, T: 2, Via: "coord", Sid: rsid("te5", c5, 4)}}, SignAt: []int{1}, Seed: seed + 49, MaxSubsets: 2,
+				CSigns: csignsFor(u5, c5, 2, 1, 3, seed+1)},
+			Case{Kind: "scenario", Proto: "ecdsa", Start: "fixtures", Reshares: []Reshare{{Members: cj, T: 1, Via: "coord", Sid: rsid("te4c", cj, 3)}}, Seed: seed + 50,
+				CSigns: csignsFor(u5, cj, 1, 1, 4, seed+2)},
+			Case{Kind: "scenario", Proto: "ecdsa", Start: "fixtures", Reshares: []Reshare{{Members: c3, T: 1, Via: "coord", Sid: rsid("te3", c3, 2)}}, Seed: seed + 51,
+				CSigns: csignsFor(u5, c3, 1, 1, 6, seed+2)},
+			Case{Kind: "scenario", Proto: "frost", Start: "fixtures", Reshares: []Reshare{{Members: c3, T: 1, Via: "coord", Sid: rsid("tf3", c3, 1)}}, Seed: seed + 51,
+				CSigns: csignsFor(u5, c3, 1, 1, 6, seed+2)},
+			// a member leaves, every remaining one in turn sorts first
+			Case{Kind: "scenario", Proto: "ecdsa", Start: "fixtures", Reshares: []Reshare{{Members: []int{0, 2}, T: 1, Via: "coord", Sid: rsid("tel0", c3, 0)}}, SignAt: []int{1}, Seed: seed + 52},
+			Case{Kind: "scenario", Proto: "frost", Start: "fixtures", Reshares: []Reshare{{Members: []int{0, 2}, T: 1, Via: "coord", Sid: rsid("tfl2", c3, 2)}}, SignAt: []int{1}, Seed: seed + 52},
+			// a member leaves and sorts first among the OLD committee for the refresh's session id
+			Case{Kind: "scenario", Proto: "ecdsa", Start: "fixtures", Reshares: []Reshare{{Members: []int{0, 2}, T: 1, Via: "coord", Sid: rsid("telx", c3, 1)}}, SignAt: []int{1}, Seed: seed + 55, ExFirst: true},
+			Case{Kind: "scenario", Proto: "frost", Start: "fixtures", Reshares: []Reshare{{Members: []int{0, 2}, T: 1, Via: "coord", Sid: rsid("tflx", c3, 1)}}, SignAt: []int{1}, Seed: seed + 55, ExFirst: true},
+			// from a real key generation: FROST committees of threshold+3 (t = 1) and threshold+2 (t = 2)
+			Case{Kind: "scenario", Proto: "frost", Start: "keygen", N: 4, T: 1, Reshares: []Reshare{{Members: cj, T: 1, Via: "coord", Sid: rsid("tfk1", cj, 2)}}, Seed: seed + 53,
+				CSigns: csignsFor(u5, cj, 1, 1, 3, seed)},
+			Case{Kind: "scenario", Proto: "frost", Start: "keygen", N: 4, T: 2, Reshares: []Reshare{{Members: cj, T: 2, Via: "coord", Sid: rsid("tfk2", cj, 0)}}, Seed: seed + 54,
+				CSigns: csignsFor(u5, cj, 2, 1, 3, seed+1)},
+		)
 		for _, proto := range []string{"ecdsa", "frost"} {
 			scn = append(scn,
 				Case{Kind: "scenario", Proto: proto, Start: "fixtures", SignAt: []int{0}, Seed: seed + 5, Chan: "unbuf"},
@@ -1246,6 +1480,14 @@ func coq(c Case, o Obs) string {
 	case "validate":
 		return "Validate " + vgen.Z(int64(c.OldT)) + " " + vgen.List(rawHex(c.Old)) + " " + vgen.List(rawHex(c.KeyPeers)) + " " +
 			vgen.List(rawHex(c.Peers)) + " " + vgen.N(uint64(o.VCode))
+	case "coords":
+		k := 0
+		for i, p := range coordProcs {
+			if p == c.Proc {
+				k = i / 2 // 0 keygen, 1 signing, 2 resharing
+			}
+		}
+		return "Coords " + vgen.N(uint64(k)) + " " + vgen.List(rawHex(c.KeyPeers)) + " " + vgen.List(rawHex(c.Peers)) + " " + vgen.List(rawHex(o.Cands))
 	case "btcwatch":
 		sent := o.Sent
 		if o.BtcNote != "" {
@@ -1352,6 +1594,13 @@ func scenarioKind(c Case) string {
 			ops = []string{"plain"}
 		}
 	}
+	if c.OldOnly {
+		for i, op := range ops {
+			if op == "join" {
+				ops[i] = "old-after-join" // (not the class of the open finding about what a joiner's share is worth)
+			}
+		}
+	}
 	kind := "scn/" + c.Proto + "/" + strings.Join(ops, "+")
 	var mode []string
 	if c.Chan != "" {
@@ -1381,6 +1630,18 @@ func scenarioKind(c Case) string {
 	if anyAbandoned {
 		mode = append(mode, "abandon")
 	}
+	for _, r := range c.Reshares {
+		if r.Via == "coord" {
+			mode = append(mode, "coordrefresh")
+			if c.ExFirst {
+				mode = append(mode, "exfirst")
+			}
+			break
+		}
+	}
+	if len(c.CSigns) > 0 {
+		mode = append(mode, "csign")
+	}
 	if len(mode) > 0 {
 		kind += "/" + strings.Join(mode, "-")
 	}
@@ -1399,11 +1660,22 @@ func main() {
 			if c.Kind == "scenario" {
 				return scenarioKind(c)
 			}
+			if c.Kind == "coords" {
+				return "coords/" + c.Proc
+			}
 			if c.Kind == "btcexec" {
+				k := fmt.Sprintf("btcexec/%d-inputs", c.Inputs)
 				if c.Refresh {
-					return fmt.Sprintf("btcexec/%d-inputs-after-refresh", c.Inputs)
+					k += "-after-refresh"
 				}
-				return fmt.Sprintf("btcexec/%d-inputs", c.Inputs)
+				distinct := false
+				for _, v := range c.Values {
+					distinct = distinct || v != c.Values[0]
+				}
+				if distinct {
+					k += "/different-values"
+				}
+				return k
 			}
 			return c.Kind
 		},
@@ -1417,6 +1689,8 @@ func main() {
 				return len(c.Old) >= 1 && len(c.Old) < len(c.Peers)
 			case "validate":
 				return len(c.Old) >= 1
+			case "coords":
+				return len(c.Peers) >= 2
 			case "btcwatch":
 				return len(c.Results) >= 1
 			case "btcexec":
@@ -1424,6 +1698,6 @@ func main() {
 			}
 			return len(o.Stages) >= 2
 		},
-		Rule: "glue: both coordinator flags through the real processEndMessage; random committees of 1-9 well-formed peer ids (sha256- and identity-multihash) through PartiesFromPeers, sortParties (old subset, incl. non-subset and empty) and unmarshallStartParams/validateStartParams (holder / non-holder, perturbed subsets, thresholds -1..|sub|+1); scenarios: real in-process ECDSA and FROST runs from the fixture key shares (thorough: also from a real keygen) with join / leave / threshold change refreshes and every threshold+1 subset signing, every process of a relayer on ONE long-lived store object per protocol whose hand-outs are compared with the file after every stage (read twice, the first result modified); abandoned refreshes / key generations (Stop without Run, Run with a cancelled context, rejected start parameters) followed by signing; after a refresh with a leaving member extra sessions in which the ex-member is online with its old share and answers ready first; signing sessions with the executors' result channels (unbuffered / capacity 1 / one FROST process per input sharing a channel of capacity = inputs) read by a parked, a late or an EVM-watchExecution-style reader, and sessions whose first attempt fails (CommunicationError on every signer's first key-sign broadcast, optionally a left-out member joining) and whose SAME process objects run again; OFFLINE outsiders: in the scenarios marked offline the committee members that take no part in a signing session cannot be reached and the transport reports a message addressed to one of them the way comm/p2p does (the reachable addressees get it, the call returns comm.CommunicationError) - threshold+1 online holders must still sign; RETRIES WITH ANOTHER SUBSET (resubs): sessions whose first attempt runs with a subset S1 and is abandoned (CommunicationError on every first broadcast, or every message lost and the attempt cancelled once everybody waits) and whose second attempt runs on the SAME process objects with another subset S2 - pairs in which a common relayer has another position among the sorted parties first, ECDSA with 2 and 3 signers, FROST -, the holders of S2 must obtain a valid signature; the complete BTC executor also after a refresh of the FROST shares, where the transfer must be signed and broadcast; processEndMessage with channel capacities 0/1/2/8 x parked/late reader; distinct = distinct input JSON; non-trivial = at least 2 peers (parties), a proper non-empty old subset (sortp), a non-empty subset (validate), a scenario with at least two observed stages",
+		Rule: "glue: both coordinator flags through the real processEndMessage; random committees of 1-9 well-formed peer ids (sha256- and identity-multihash) through PartiesFromPeers, sortParties (old subset, incl. non-subset and empty) and unmarshallStartParams/validateStartParams (holder / non-holder, perturbed subsets, thresholds -1..|sub|+1); scenarios: real in-process ECDSA and FROST runs from the fixture key shares (thorough: also from a real keygen) with join / leave / threshold change refreshes and every threshold+1 subset signing, every process of a relayer on ONE long-lived store object per protocol whose hand-outs are compared with the file after every stage (read twice, the first result modified); abandoned refreshes / key generations (Stop without Run, Run with a cancelled context, rejected start parameters) followed by signing; after a refresh with a leaving member extra sessions in which the ex-member is online with its old share and answers ready first; signing sessions with the executors' result channels (unbuffered / capacity 1 / one FROST process per input sharing a channel of capacity = inputs) read by a parked, a late or an EVM-watchExecution-style reader, and sessions whose first attempt fails (CommunicationError on every signer's first key-sign broadcast, optionally a left-out member joining) and whose SAME process objects run again; OFFLINE outsiders: in the scenarios marked offline the committee members that take no part in a signing session cannot be reached and the transport reports a message addressed to one of them the way comm/p2p does (the reachable addressees get it, the call returns comm.CommunicationError) - threshold+1 online holders must still sign; RETRIES WITH ANOTHER SUBSET (resubs): sessions whose first attempt runs with a subset S1 and is abandoned (CommunicationError on every first broadcast, or every message lost and the attempt cancelled once everybody waits) and whose second attempt runs on the SAME process objects with another subset S2 - pairs in which a common relayer has another position among the sorted parties first, ECDSA with 2 and 3 signers, FROST -, the holders of S2 must obtain a valid signature; the complete BTC executor also after a refresh of the FROST shares, where the transfer must be signed and broadcast, on UTXO sets whose values are pairwise different (2, 3 and 4 inputs, one value above 2^32 and one above 2^31 satoshi; one control with equal values), every witness verified against the outputs as the chain has them; WHO MAY COORDINATE (coords): the real ValidCoordinators of all six process kinds on random peerstores of 1-6 relayers whose stored key share lists a part / all / none of them and relayers that have left, plus the fixture committee with a leaver and a joiner; SESSIONS THROUGH THE REAL tss.Coordinator ON EVERY RELAYER (coord.go): refreshes with a joining relayer under session ids for which the joiner sorts first (thorough: every relayer in turn; an ex-member first), and signing sessions of committees of threshold+2 and threshold+3 relayers after such a refresh in which a selected relayer - the coordinator or another one, rotating with the seed - dies when the first attempt begins, so that the retry (handleError, real bully election) needs the relayers that were not selected; processEndMessage with channel capacities 0/1/2/8 x parked/late reader; distinct = distinct input JSON; non-trivial = at least 2 peers (parties), a proper non-empty old subset (sortp), a non-empty subset (validate), a scenario with at least two observed stages",
 	})
 }
